@@ -41,3 +41,13 @@ package bandtss
 //@ may_panic calls
 //@ modifies *
 //@ forwards EndBlocker
+
+// C11: the content signed for a group transition is tag 61b9b741 || the incoming group's public key || the TRANSITION time
+// (the order's own, as 8 big-endian bytes of its Unix seconds) - not the time of the request
+//@ func NewSignatureOrderHandler$lit0
+//@ may_panic calls
+//@ modifies *
+//@ ensures err == nil ==> typeis(content, "*types.GroupTransitionSignatureOrder")
+//@ ensures err == nil ==> (let c = unbox(content, "*types.GroupTransitionSignatureOrder") in
+//@        (exists parts [][]byte :: result == ext("bytes.Join", parts, bytes("")) && len(parts) == 3 && parts[1] == c.PubKey && parts[2] == u64be(wrapu64(c.TransitionTime.Unix()))
+//@            && len(parts[0]) == 4 && parts[0][0] == 97 && parts[0][1] == 185 && parts[0][2] == 183 && parts[0][3] == 65))
